@@ -72,10 +72,13 @@ def _error_exit_guard(eff, c):
     if len(c) < 5 or not hasattr(eff, "frame") or eff.frame is None:
         return False
     from . import guards, cfg
-    body = eff.frame.ev.prog.bodies.get(c[4])
+    # the frame's own body object first: a helper-expanded (synthetic) body keeps the id of the function it was expanded from
+    body = eff.frame.body if eff.frame.body.id == c[4] else eff.frame.ev.prog.bodies.get(c[4])
     if body is None:
         return False
     a = c[3]
+    if a >= len(body.blocks):
+        return False
     t = body.blocks[a]["t"]
     if t["k"] != "switch":
         return False
